@@ -99,6 +99,26 @@ NOT_APPLICABLE = {
 
 NOT_YET = {}
 
+# legs added after seed rounds 10-12 (DESIGN.md §12, second table); ground = native sampling next to the solver-decided core
+ADDED_LATE = {
+    "C01": "Added: generated formulas with numeric scalings keep the degree ordering (ground).",
+    "C04": "Added: spline bounds narrower than the training data under clip / zero.",
+    "C05": "Added: the materialized spec as entry point; non-default options of every coding, sparse leg included.",
+    "C06": "Added: nulls made by evaluation on complete frames; list-valued factors; RangeIndex with offset / step.",
+    "C07": "Added: one stateful call nested in different factor expressions of different parts; parts with zero columns.",
+    "C09": "Added: a recorded level absent from follow-up data, per output type (ground).",
+    "C10": "Added: multi-term subsets of clustered specs (ground).",
+    "C11": "Added: sparse and pandas output for every coding spelling of the pipeline table (ground).",
+    "C12": "Added: the recorded knot vector is the one the arguments denote (multiplicities kept); tied training data.",
+    "C13": "Added: integer / float32 / bool input vectors for scale and center (ground).",
+    "C15": "Added: quote_routes - back-tick names verbatim under the parser without intercept, list / dict specifications, multi-part formulas, inside Python fragments (CH-enum + native grid).",
+    "C16": "Added: the same constraint written more than once, string and list form.",
+    "C17": "Added: data columns named like Python builtins inside Python code (ground).",
+    "C18": "Added: caller-owned lists and contrasts objects in the evaluation context (ground).",
+    "C19": "Added: st_simplify_deep - 400 generated nestings of depth <= 4 with symbolic leaves; idempotence also in place.",
+    "C20": "Added: ModelSpecs.differentiate as a route for structured formulas (ground).",
+}
+
 
 def main():
     props = [json.loads(l)["id"] for l in open(os.path.join(V, "properties.jsonl"))]
@@ -107,6 +127,8 @@ def main():
         if pid not in CHECKS:
             continue
         engine, technique, text, note, ref = CHECKS[pid]
+        if pid in ADDED_LATE:
+            note = note + " " + ADDED_LATE[pid]
         checks.append(
             {
                 "property_id": pid,
